@@ -452,6 +452,25 @@ func (s *Sys) exec1(toks []string) string {
 				}
 			}
 			_ = fastSeen
+			// the physical batches of the commit as BatchWithFlusher cut them (Flusher.v): threshold
+			// and, per batch, the sizes of its operations in memdb's accounting (s<key>+<value> /
+			// d<key>); only on a plain MemDB, whose batch size is that sum
+			wb := "-"
+			if s.cfg.Backend == "memdb" && s.wrap == nil {
+				var bs []string
+				for _, w := range s.hooks.writes {
+					var os []string
+					for _, o := range w {
+						if o.del {
+							os = append(os, fmt.Sprintf("d%d", len(o.k)))
+						} else {
+							os = append(os, fmt.Sprintf("s%d+%d", len(o.k), len(o.v)))
+						}
+					}
+					bs = append(bs, strings.Join(os, ","))
+				}
+				wb = fmt.Sprintf("%d:%s", s.cfg.Flush, strings.Join(bs, "|"))
+			}
 			s.hooks.writes = nil
 			if err != nil {
 				return "err"
@@ -459,7 +478,7 @@ func (s *Sys) exec1(toks []string) string {
 			if !orderOK {
 				return "ws-order"
 			}
-			return rPair("ws["+strings.Join(nodes, ",")+"]", rPair(rBytes(h), rInt(v)))
+			return rPair("ws["+strings.Join(nodes, ",")+"];wb["+wb+"]", rPair(rBytes(h), rInt(v)))
 		case "ctab":
 			// ctab save: a commit whose physical batches are recorded; for every batch prefix the
 			// image is opened by a new tree object and the outcome of Load() is reported, indexed by
